@@ -2,6 +2,7 @@ package main
 
 import (
 	"encoding/json"
+	"strconv"
 	"fmt"
 	"math"
 	"math/rand"
@@ -221,9 +222,34 @@ func runC05(c *core.Ctx) {
 		for fi := range names {
 			kvs := baseKVs()
 			switch i % 6 {
-			case 0: // delete one field
+			case 0: // delete one field; in half of the cases its name still occurs elsewhere in the text
+				name := kvs[fi].k
 				kvs = append(kvs[:fi:fi], kvs[fi+1:]...)
-				emitDecode("delete-field", renderObj(kvs))
+				class := "delete-field"
+				switch r.Intn(8) {
+				case 0: // as the value of a string field
+					for j := range kvs {
+						if strings.HasPrefix(kvs[j].v, "\"") {
+							kvs[j].v = strconv.Quote(name)
+							break
+						}
+					}
+					class = "delete-field-name-as-value"
+				case 1: // as a key of a nested unknown object
+					kvs = append(kvs, kv{"extra", renderObj([]kv{{name, "1"}})})
+					class = "delete-field-name-nested"
+				case 2: // as a principal
+					for j := range kvs {
+						if kvs[j].k == "prins" {
+							kvs[j].v = "[" + strconv.Quote(name) + "]"
+						}
+					}
+					class = "delete-field-name-as-principal"
+				case 3: // inside a longer key
+					kvs = append(kvs, kv{name + "2", "1"}, kv{"x" + name, "true"})
+					class = "delete-field-name-in-longer-key"
+				}
+				emitDecode(class, renderObj(kvs))
 			case 1: // rename in case / near miss
 				kvs[fi].k = caseVariants(r, kvs[fi].k)
 				emitDecode("rename-field", renderObj(kvs))
